@@ -1260,9 +1260,16 @@ func (sed *shardEventDelegate) NotifyLeave(node *memberlist.Node) {
 	}
 
 	// If we're now isolated and have join addresses configured, restart join loop
-	if sed.manager != nil && sed.manager.ml != nil && sed.manager.memberlistConfig != nil {
+	if sed.manager == nil {
+		return
+	}
+	// Stop() clears the memberlist pointer concurrently: read it once, under the lock that guards it
+	sed.manager.mutex.RLock()
+	ml := sed.manager.ml
+	sed.manager.mutex.RUnlock()
+	if ml != nil && sed.manager.memberlistConfig != nil {
 		sed.manager.mlMutex.RLock()
-		numMembers := sed.manager.ml.NumMembers()
+		numMembers := ml.NumMembers()
 		sed.manager.mlMutex.RUnlock()
 		if numMembers == 1 && len(sed.manager.memberlistConfig.JoinAddrs) > 0 {
 			sed.logger.Info("Node is now isolated, restarting join loop",
